@@ -76,6 +76,7 @@ public:
     assert(_writePos + size <= _writeEnd);
 
     void* result = memcpy(_writePos, src, size);
+    BINLOG_VERIF_POINT("queue-bytes-written");
     _writePos += size;
     return result;
   }
@@ -91,6 +92,7 @@ public:
   {
     const std::size_t newW = std::size_t(_writePos - buffer());
     _queue->writeIndex.store(newW, std::memory_order_release);
+    BINLOG_VERIF_POINT("queue-commit");
   }
 
 private:
@@ -127,6 +129,7 @@ private:
       else
       {
         _queue->dataEnd = w;
+        BINLOG_VERIF_POINT("queue-wrap");
         _writePos = buffer();
         _writeEnd = buffer() + leftSize;
       }
